@@ -6,7 +6,7 @@ import time
 from checks.common import swarm, EXC_TYPES, make_exc
 
 ID = 'C12'
-LEVEL = 'fault_enumeration'
+LEVEL = 'exploration'
 NEEDS = ('threads', 'proc')
 QUICK = dict(runs=5000, wall=85)
 THOROUGH = dict(runs=300000, wall=1500)
